@@ -206,6 +206,16 @@ func (g *Gen) leafContexts() {
 
 func genC02(g *Gen) {
 	g.leafContexts()
+	cat := leafCatalogue()
+	g.arrangedFrames("filter arranged", func(f int) {
+		for i := range cat {
+			cl := cat[i]
+			if g.rng.Intn(5) == 0 {
+				cl = Clause{K: "not", Subs: []Clause{cl}}
+			}
+			g.do(Step{Op: "Filter", Recv: f, Clause: &cl})
+		}
+	})
 	colsets := []string{"ABCFG", "ACFST", "SREDX", "ABTU", "FGSE", "CEDXY", "ABCFGTUSREDXY"}
 	sizes := []int{0, 1, 2, 3, 4, 6, 9, 14, 25, 60, 300}
 	for rep := 0; rep < g.pick(300, 5000); rep++ {
